@@ -92,7 +92,8 @@ def build_pix(r):
     if k == 'point':
         return R.PointPixelRegion(c, **kw)
     if k == 'text':
-        return R.TextPixelRegion(c, 'label text', meta=meta, visual=RegionVisual({'color': 'red', 'rotation': 15.0}))
+        ROUTE[0] += 1
+        return R.TextPixelRegion(c, 'label text', meta=meta, visual=RegionVisual({'color': 'red', 'rotation': [15.0, 0.0, 0][ROUTE[0] % 3]}))
     if k == 'line':
         return R.LinePixelRegion(c, PixCoord(r['x2'] / U, r['y2'] / U), **kw)
     if k == 'polygon':
@@ -216,6 +217,23 @@ def check_state(ctx, st, idx, pid='C06'):
         if not ok:
             ctx.violation(sig + 'meta|text', f'text meta/visual not preserved: {dict(pix.visual)} -> {dict(sky.visual)} -> {dict(back.visual)}', case)
             return True
+    if text_rot:
+        # sky first: a sky text whose rotation is exactly 0 (or any other value) points (north - 90 deg) + rotation in the image, and comes back
+        import regions as R_
+        from regions import RegionVisual as RV_
+        for rot0 in (0.0, 0, 40.0):
+            with warnings.catch_warnings():
+                warnings.simplefilter('ignore')
+                s0 = R_.TextSkyRegion(sky.center, 'label text', visual=RV_({'rotation': rot0}))
+                p0 = s0.to_pixel(wcs)
+                s1 = p0.to_sky(wcs)
+            exp = math.degrees(math.atan2(w['parity'] * w['rot'][1], w['rot'][0])) + rot0
+            d0 = math.remainder(float(p0.visual.get('rotation', 1e9)) - exp, 360.0)
+            d1 = math.remainder(float(s1.visual.get('rotation', 1e9)) - rot0, 360.0)
+            if abs(d0) > 0.5 or abs(d1) > 1e-6:
+                ctx.violation(sig + 'meta|text|sky-first-rotation', f"a sky text with rotation {rot0!r}: pixel rotation {p0.visual.get('rotation')!r} (expected about {exp:.3f}), "
+                              f"back on the sky {s1.visual.get('rotation')!r}", case)
+                return True
     why = close_pix(back, pix, 1e-6, 30.0)
     if why:
         ctx.violation(sig + f'roundtrip|{kindsig(r)}', f'pixel -> sky -> pixel changes the geometry: {why}', case)
@@ -246,6 +264,22 @@ def check_state(ctx, st, idx, pid='C06'):
                 return True
         except Exception as ex:  # noqa
             ctx.violation(sig + f'units-raises|{kindsig(r)}|{type(ex).__name__}', f'sky region given in other units: to_pixel raised {ex!r}', case)
+            return True
+    # a circle / circular annulus whose centre is given in FK5 at another equinox (same point of the sky, same sizes) has the same pixel image
+    if r['k'] in ('circle', 'cannulus') and conf[0] != 'fk4':       # (FK4 <-> FK5 is not a pure rotation: astropy's own round trip is only good to ~1e-4 px)
+        from astropy.coordinates import FK5
+        try:
+            with warnings.catch_warnings():
+                warnings.simplefilter('ignore')
+                kw = {pn: getattr(sky, pn) for pn in sky._params}
+                kw['center'] = sky.center.transform_to(FK5(equinox=['J1975', 'J2010.5'][idx % 2]))
+                other = type(sky)(**kw, meta=sky.meta.copy(), visual=sky.visual.copy()).to_pixel(wcs)
+            why = close_pix(other, back, 1e-6, 30.0)
+            if why:
+                ctx.violation(sig + f'frame-attributes|{kindsig(r)}', f'the same sky region with its centre given in FK5 at another equinox has another pixel image: {why}', case)
+                return True
+        except Exception as ex:  # noqa
+            ctx.violation(sig + f'frame-attributes-raises|{kindsig(r)}|{type(ex).__name__}', f'{ex!r}', case)
             return True
     # sky -> pixel -> sky starting from a sky compound built directly, with its own explicitly empty meta
     if r['k'] == 'compound':
@@ -294,7 +328,7 @@ def check_state(ctx, st, idx, pid='C06'):
     # points, lines and text contain nothing (everything when excluded): the sky region answers like its pixel image
     if r['k'] in ('point', 'line', 'text'):
         g = np.arange(-2.0, 6.0, 1.0)
-        xs, ys = [v.ravel() for v in np.meshgrid(g + r.get('cx', 40) / U, g + r.get('cy', -24) / U)]
+        xs, ys = np.meshgrid(g + r.get('cx', 40) / U, g[:5] + r.get('cy', -24) / U)        # a 2-D grid of positions (5 x 8)
         with warnings.catch_warnings():
             warnings.simplefilter('ignore')
             a1 = np.asarray(pix.contains(PixCoord(xs, ys)))
